@@ -106,6 +106,13 @@ def generate(seed, tier):
         m = _srt(model[name])
         return [list(map(list, t)) for t in m]
 
+    live_pats = {}
+
+    def under_reader():
+        """a triple of G that an open reader's pattern covers (mutations aimed at what is being iterated)"""
+        cands = [t for t in sorted(model["G"], key=repr) for p_ in live_pats.values() if all(p_[i] is None or tuple(p_[i]) == t[i] for i in range(3))]
+        return [list(x) for x in g.pick(cands)] if cands else None
+
     def pat():
         t = tri()
         if model["G"] and g.chance(0.6):
@@ -128,6 +135,8 @@ def generate(seed, tier):
                 if rk == "iter":
                     op["pat"] = [None, None, None]
                 live.append(nreaders)
+                if op["g"] == "G":
+                    live_pats[nreaders] = op["pat"]
             elif kind in ("step", "drain", "close", "drop") and live:
                 r = sched.pick(live)
                 op = {"uid": uid, "k": kind, "r": r}
@@ -135,6 +144,7 @@ def generate(seed, tier):
                     op["n"] = sched.choice([1, 1, 2, 3])
                 if kind in ("close", "drop", "drain"):
                     live.remove(r)
+                    live_pats.pop(r, None)
             else:
                 continue
             ops.append(op)
@@ -161,6 +171,9 @@ def generate(seed, tier):
             for q in op["q"]:
                 if q[3] == name:
                     model[name].add(tt(q[:3]))
+        elif kind == "remove" and name == "G" and live_pats and g.chance(0.5) and under_reader() is not None:
+            op["t"] = under_reader()
+            model[name] = {t for t in model[name] if t != tuple(tuple(x) for x in op["t"])}
         elif kind == "remove":
             op["t"] = pat() if name == "G" else [None if g.chance(0.3) else x for x in (g.pick(present(name)) if model[name] else tri())]
             model[name] = {t for t in model[name] if not all(op["t"][i] is None or tuple(op["t"][i]) == t[i] for i in range(3))}
